@@ -1,11 +1,11 @@
 INIT MInit
 NEXT MNext
 CONSTANTS
-  MaxStmts = 1
+  MaxStmts = 3
   MaxDepth = 1
-  Slice = "all"
+  Slice = "narrow"
   UseY = FALSE
-  Cats = {"assign-v", "unpack", "aug", "expr", "return", "assert", "save", "mut"}
+  Cats = {"assign-v", "return", "if", "ifelse", "match"}
 INVARIANT Inhabited
 INVARIANT EmitDone
 CHECK_DEADLOCK FALSE
